@@ -34,6 +34,25 @@ Section NMapLemmas.
       + destruct (N.eqb k0 k'); auto.
   Qed.
 
+  Lemma nget_nins_same m k v : nget (nins m k v) k = Some v.
+  Proof.
+    induction m as [|[k' v'] r IH]; simpl.
+    - rewrite N.eqb_refl. reflexivity.
+    - destruct (N.eqb k' k) eqn:E; simpl; [rewrite N.eqb_refl; reflexivity|].
+      destruct (N.ltb k k'); simpl; [rewrite N.eqb_refl; reflexivity|]. rewrite E. exact IH.
+  Qed.
+
+  Lemma nget_nins_other m k k' v : k <> k' -> nget (nins m k v) k' = nget m k'.
+  Proof.
+    intros Hne. assert (Hkk : N.eqb k k' = false) by (apply N.eqb_neq; exact Hne).
+    induction m as [|[k0 v0] r IH]; simpl.
+    - rewrite Hkk. reflexivity.
+    - destruct (N.eqb k0 k) eqn:E; simpl.
+      + apply N.eqb_eq in E. subst k0. rewrite Hkk. reflexivity.
+      + destruct (N.ltb k k0); simpl; [rewrite Hkk; reflexivity|].
+        destruct (N.eqb k0 k'); [reflexivity|exact IH].
+  Qed.
+
   Lemma nget_ndel_same m k : nget (ndel m k) k = None.
   Proof.
     induction m as [|[k0 v0] r IH]; simpl; [reflexivity|].
@@ -329,9 +348,9 @@ Proof.
   intros [= <- <-]. apply insert_evals_frame in Hi. simpl in Hi. destruct Hi as [A [B [D F]]].
   apply start_phase1_spec in Hs. destruct Hs as [[X1 [X2 [X3 [X4 [X5 X6]]]]] [Hp Hp']].
   unfold step_ok, frame; simpl. repeat split; try assumption.
-  - intros k Hk. apply nget_nset_other. congruence.
+  - intros k Hk. apply nget_nins_other. congruence.
   - intros k Hk. rewrite D. reflexivity.
-  - apply nget_nset_same.
+  - apply nget_nins_same.
   - rewrite D. reflexivity.
 Qed.
 
@@ -342,11 +361,11 @@ Proof.
   apply start_phase2_spec in Hs. destruct Hs as [[X1 [X2 [X3 [X4 [X5 X6]]]]] [Hp Hp']].
   destruct accs as [|ac accs].
   - intros [= <- <-]. unfold step_ok, frame; simpl. repeat split; try assumption.
-    + intros k Hk. apply nget_nset_other. congruence.
-    + apply nget_nset_same.
+    + intros k Hk. apply nget_nins_other. congruence.
+    + apply nget_nins_same.
   - destruct (idx_addrs _ _); [|discriminate]. intros [= <- <-]. unfold step_ok, frame; simpl. repeat split; try assumption.
-    + intros k Hk. apply nget_nset_other. congruence.
-    + apply nget_nset_same.
+    + intros k Hk. apply nget_nins_other. congruence.
+    + apply nget_nins_same.
 Qed.
 
 Lemma start3_ok x eon a x1 a1 : start3 x eon a = TOk (x1, a1) -> step_ok x eon a x1 a1 Accusing Apologizing.
@@ -356,11 +375,11 @@ Proof.
   apply start_phase3_spec in Hs. destruct Hs as [[X1 [X2 [X3 [X4 [X5 X6]]]]] [Hp Hp']].
   destruct apos as [|ap apos].
   - intros [= <- <-]. unfold step_ok, frame; simpl. repeat split; try assumption.
-    + intros k Hk. apply nget_nset_other. congruence.
-    + apply nget_nset_same.
+    + intros k Hk. apply nget_nins_other. congruence.
+    + apply nget_nins_same.
   - destruct (idx_addrs _ _); [|discriminate]. intros [= <- <-]. unfold step_ok, frame; simpl. repeat split; try assumption.
-    + intros k Hk. apply nget_nset_other. congruence.
-    + apply nget_nset_same.
+    + intros k Hk. apply nget_nins_other. congruence.
+    + apply nget_nins_same.
 Qed.
 
 (* the final transition: the entry disappears, a result row appears *)
@@ -858,8 +877,8 @@ Proof.
   intros [Hl Hc He Hd Hr] Ha Hg Hs Hst Hk. constructor; simpl; try assumption.
   - destruct Hl as [Hl|[_ Hl]]; [left; exact Hl|]. rewrite Hl in Ha. discriminate.
   - intros k a0. destruct (N.eq_dec eon k) as [<-|Hne].
-    + rewrite nget_nset_same, N.eqb_refl. intros [= <-]. exists e'. split; [reflexivity|]. split; [exact Hs|]. split; assumption.
-    + rewrite nget_nset_other by exact Hne.
+    + rewrite nget_nins_same, N.eqb_refl. intros [= <-]. exists e'. split; [reflexivity|]. split; [exact Hs|]. split; assumption.
+    + rewrite nget_nins_other by exact Hne.
       destruct (N.eqb k eon) eqn:Ek; [apply N.eqb_eq in Ek; congruence|]. apply Hd.
   - intros k r cs vs H1 H2. destruct (Hr _ _ _ _ H1 H2) as [gp [G1 [G2 G3]]].
     exists gp. split; [exact G1|]. split; [exact G2|].
@@ -1081,7 +1100,7 @@ Proof.
   destruct (find_index (cf_keypers c) me 0) as [ki|]; [|injection Hrun as <-; apply Hfresh].
   destruct (phase_eqb _ Off); [discriminate|].
   set (a := mkActive (new_pure eon (length (cf_keypers c)) (cf_threshold c) ki) h true (cf_keypers c)) in *.
-  assert (Hga : nget (sm_dkg (snd (d1, set_dkg C E P s eon a))) eon = Some a) by (simpl; apply nget_nset_same).
+  assert (Hga : nget (sm_dkg (snd (d1, set_dkg C E P s eon a))) eon = Some a) by (simpl; apply nget_nins_same).
   pose proof (shift_phase_spec _ _ _ _ _ Hrun Hga) as Hres.
   assert (Htg : tgt h a = Dealing) by (unfold tgt; simpl; apply phase_at_start).
   destruct Hres as [Hge _|a' Hlt Hnfin Hfr Hget' Hres' Hst' Hk' Hx' Hp'|pf ok Hlt Hfin _ _ _ _ _ _].
@@ -1098,7 +1117,7 @@ Proof.
            simpl. split; [|split; assumption].
            apply same_iff. split; [|rewrite Hp', Htg; reflexivity].
            eapply samex_new_pure. exact Hx'.
-        -- rewrite F5 in Ha0 by exact Hne. rewrite nget_nset_other in Ha0 by congruence.
+        -- rewrite F5 in Ha0 by exact Hne. rewrite nget_nins_other in Ha0 by congruence.
            destruct (N.eqb k eon) eqn:Ek; [apply N.eqb_eq in Ek; contradiction|]. apply Hd. exact Ha0.
       * intros k r cs vs H1 H2. destruct (N.eq_dec k eon) as [->|Hne].
         -- rewrite Hres' in H1. destruct (Hr _ _ _ _ H1 H2) as [gp [G1 _]]. congruence.
